@@ -86,6 +86,14 @@ def basic_project(rng, cid, tier, classes=None, stats=None, n_stages=None, allow
                     for j in range(rng.choice([70, 100, 131])):
                         init.append(("file", p + b"/wide%03d.dat" % j, "g:%d:%d" % (rng.randrange(100000), rng.choice([1, 9, 40]))))
                     wide = False
+                if k == "norec" and rng.random() < 0.7:
+                    # several sub-directories next to each other in the listing: none of them may be descended into
+                    for j in range(rng.choice([2, 3, 5])):
+                        sd = p + b"/nsub%d" % j
+                        init.append(("dir", sd))
+                        init.append(("file", sd + b"/below%d.txt" % j, "g:%d:%d" % (rng.randrange(1000), rng.choice(sizes[:6]))))
+                        if allow_inputs and j == 1 and rng.random() < 0.5:
+                            ins.append((sd + b"/below%d.txt" % j, ""))      # owned by nobody: a plain input
                 outs.append((p, "dr" if k == "norec" else "d"))
             elif k == "file":
                 p = base + b"_f.bin"
